@@ -19,7 +19,7 @@ pub fn fds1<'a>(f: &'a &'a EventFd) -> (r: Option<&'a [RawFd]>) ensures opt_rawf
 pub struct RxFrame { pub request: u32, pub flags: u32, pub size: u32, pub body: Seq<u8>, pub payload: Seq<u8>, pub fds: Seq<int> }
 pub struct Frame { pub request: u32, pub flags: u32, pub size: u32, pub body: Seq<u8>, pub payload: Seq<u8>, pub fds: Seq<int> }
 pub enum Ev { Tx(Frame), Rx(RxFrame) }
-pub struct Endpoint<R: Req> { pub log: Ghost<Seq<Ev>>, pub io_failed: Ghost<bool>, pub rx_hdrs: Ghost<nat>, pub rx_body: Ghost<Seq<nat>>, pub _h: core::marker::PhantomData<R> }
+pub struct Endpoint<R: Req> { pub log: Ghost<Seq<Ev>>, pub io_failed: Ghost<bool>, pub rx_hdrs: Ghost<nat>, pub rx_body: Ghost<Seq<nat>>, pub on: Ghost<(int, int)>, pub _h: core::marker::PhantomData<R> }
 
 pub open spec fn rx_hdr<R: Req>(x: RxFrame) -> VhostUserMsgHeader<R> {
     VhostUserMsgHeader { request: x.request, flags: x.flags, size: x.size, _r: core::marker::PhantomData }
@@ -142,8 +142,28 @@ impl HandlerStub2 {
     #[verifier::external_body] pub fn shmem_unmap(&mut self, req: &VhostUserMMap) -> (r: HandlerResult<u64>)
         ensures final(self).trace@ == old(self).trace@.push(Call2::Unmap(*req)), final(self).rets@ == old(self).rets@.push(r) { unimplemented!() }
 }
+// the server's private channel (FrontendReqHandler::new): the two halves of one UnixStream::pair() share `pair`; `side` tells them apart
+pub struct UnixStream { pub pair: Ghost<int>, pub side: Ghost<int>, pub fd: RawFd }
+impl UnixStream {
+    // assumed: A-OS UnixStream::pair() creates two connected sockets (may fail)
+    #[verifier::external_body]
+    pub fn pair() -> (r: core::result::Result<(UnixStream, UnixStream), IoError>)
+        ensures r is Ok ==> r->Ok_0.0.pair@ == r->Ok_0.1.pair@ && r->Ok_0.0.side@ != r->Ok_0.1.side@
+    { unimplemented!() }
+    // assumed: A-OS (as_raw_fd lends the descriptor number, ownership unchanged)
+    #[verifier::external_body]
+    pub fn as_raw_fd(&self) -> (r: RawFd) ensures r == self.fd { unimplemented!() }
+}
+impl<R: Req> Endpoint<R> {
+    // assumed: ENV Endpoint::from_stream (connection.rs) wraps the socket: nothing sent or received yet, no failure
+    #[verifier::external_body]
+    pub fn from_stream(sock: UnixStream) -> (r: Endpoint<R>)
+        ensures r.log@ =~= Seq::<Ev>::empty(), !r.io_failed@, r.rx_hdrs@ == 0, r.rx_body@ =~= Seq::<nat>::empty(), r.on@ == (sock.pair@, sock.side@)
+    { unimplemented!() }
+}
 pub struct FrontendReqHandler {
     pub sub_sock: Endpoint<BackendReq>,
+    pub tx_sock: UnixStream,
     pub reply_ack_negotiated: bool,
     pub backend: HandlerStub2,
     pub error: Option<i32>,
